@@ -146,6 +146,16 @@ func scenarioRangeE2E(c *vrun.Ctx) {
 				if len(reqs) == 0 {
 					continue
 				}
+				// C09: the origin answered the retried request (the one without Range) successfully: that is the
+				// answer the client is owed, also when the proxy could not store it (an empty body on the file
+				// backend) and goes to the origin once more on the client's behalf
+				for _, rq := range reqs {
+					if rq.Header.Get("Range") == "" && rq.Status >= 200 && rq.Status < 300 && resp.Status >= 400 {
+						c.SetCase(desc)
+						c.Violation("C09/e2e/416-retry/good-answer-turned-into-error", fmt.Sprintf("the origin answered the retried request (without Range) with %d, the client received %d | %s", rq.Status, resp.Status, desc), nil)
+						break
+					}
+				}
 				last := reqs[len(reqs)-1]
 				wantBody, wantTok, wantCT := "range not satisfiable", "", "application/x-refusal"
 				if last.Status != 416 {
